@@ -37,3 +37,148 @@ Example C19_example :
                      [0;0;1]; [1;0;2]; [3;1;1]; [0;2;1]; [2;4;2]; [3;3;1]]%Q /\
   q_g2_decode 1 (q_g2_encode [o]) = Some [o].
 Proof. vm_compute. split; reflexivity. Qed.
+
+(* ------------------------------------------------------------------------------------------------------
+   Added in build session 4 (statements re-stated from the proof files by harness tooling; each is closed by
+   exact). *)
+From SplipyModel Require Import Model.Stl Model.Spl Proofs.StlProofs Proofs.SplProofs.
+Theorem C19_spl_roundtrip :
+  forall (tol acc : R) (o : obj R),
+         @spl_ok R NumR tol o = true ->
+         exists lines : list (list R),
+           @spl_encode R NumR acc o = @Some (list (list R)) lines /\ @spl_decode R NumR tol lines = @Some (obj R) o.
+Proof. exact @spl_roundtrip. Qed.
+Print Assumptions C19_spl_roundtrip.
+
+Theorem C19_spl_index_map :
+  forall (A : Type) (dflt : A) (physdim : nat) (shape : list nat) (vals : list A) (g c : nat),
+         (g < prodn shape)%nat ->
+         (c < physdim)%nat ->
+         @nth A c (@nth (list A) g (@spl_cps A dflt physdim shape vals) []) dflt =
+         @nth A (spl_index shape g c) vals dflt.
+Proof. exact @spl_cps_nth. Qed.
+Print Assumptions C19_spl_index_map.
+
+Theorem C19_spl_index_bijection :
+  forall (shape : list nat) (physdim k : nat),
+         (k < physdim * prodn shape)%nat ->
+         (spl_point_of shape k < prodn shape)%nat /\
+         (spl_comp_of shape k < physdim)%nat /\ spl_index shape (spl_point_of shape k) (spl_comp_of shape k) = k.
+Proof. exact @spl_index_surj. Qed.
+Print Assumptions C19_spl_index_bijection.
+
+Theorem C19_spl_decode_sound :
+  forall (tol : R) (lines : list (list R)) (o : obj R),
+         @spl_decode R NumR tol lines = @Some (obj R) o ->
+         spl_wf tol o /\
+         (exists (pd dm : R) (more : list R) (rest : list (list R)),
+            lines = (@nofnat R NumR spl_letter_C :: pd :: dm :: 0 :: more) :: rest /\
+            pd = @nofnat R NumR (@length (basis R) (@o_bases R o)) /\ dm = @nofnat R NumR (@o_dim R o)) /\
+         (2 + 2 * @length (basis R) (@o_bases R o) +
+          @length R (@concat R (@map (basis R) (list R) (@b_knots R) (@o_bases R o))) +
+          prodn (@o_shape R o) * @o_dim R o <= @length (list R) lines)%nat.
+Proof. exact @spl_decode_sound. Qed.
+Print Assumptions C19_spl_decode_sound.
+
+Theorem C19_spl_truncated_rejected :
+  forall (tol acc : R) (o : obj R) (k : nat),
+         spl_wf tol o ->
+         (k < @length (list R) (@spl_lines R NumR acc o))%nat ->
+         @spl_decode R NumR tol (@firstn (list R) k (@spl_lines R NumR acc o)) = @None (obj R).
+Proof. exact @spl_truncated_rejected. Qed.
+Print Assumptions C19_spl_truncated_rejected.
+
+Theorem C19_stl_declared_count :
+  forall (F : Type) (H : Num F) (x : @stl_grid F),
+         @stl_binary_count F H (@stl_facets F x) = (2 * (@stl_nu F x - 1) * (@stl_nv F x - 1))%nat /\
+         @length (@stl_tri F) (@stl_facets F x) = @stl_binary_count F H (@stl_facets F x).
+Proof. exact @stl_declared_count. Qed.
+Print Assumptions C19_stl_declared_count.
+
+Theorem C19_stl_vertices_on_grid :
+  forall (F : Type) (x : @stl_grid F) (t : @stl_tri F) (p : @stl_point F),
+         @grid_rect F x ->
+         @In (@stl_tri F) t (@stl_facets F x) ->
+         @In (@stl_point F) p (@tri_verts F t) ->
+         exists (i j : nat) (row : list (@stl_point F)),
+           (i < @stl_nu F x)%nat /\
+           (j < @stl_nv F x)%nat /\
+           @nth_error (list (@stl_point F)) x i = @Some (list (@stl_point F)) row /\
+           @nth_error (@stl_point F) row j = @Some (@stl_point F) p.
+Proof. exact @stl_vertices_on_grid. Qed.
+Print Assumptions C19_stl_vertices_on_grid.
+
+Theorem C19_stl_grid_covered :
+  forall (F : Type) (x : @stl_grid F) (i j : nat),
+         (2 <= @stl_nu F x)%nat ->
+         (2 <= @stl_nv F x)%nat ->
+         (i < @stl_nu F x)%nat ->
+         (j < @stl_nv F x)%nat ->
+         exists t : @stl_tri F,
+           @In (@stl_tri F) t (@stl_facets F x) /\ @In (@stl_point F) (@gpt F x i j) (@tri_verts F t).
+Proof. exact @stl_grid_covered. Qed.
+Print Assumptions C19_stl_grid_covered.
+
+Theorem C19_stl_write_surface_spec :
+  forall (F : Type) (H : Num F) (tol : F) (o : obj F) (n : option (nat * nat)) (tris : list (@stl_tri F)),
+         @stl_write_surface F H tol o n = @Ok (list (@stl_tri F)) tris ->
+         exists us vs : list F,
+           @stl_dir_params F H tol (@nth (basis F) 0 (@o_bases F o) {| b_order := 0; b_knots := []; b_per1 := 0 |})
+             (@option_map (nat * nat) nat (@fst nat nat) n) = @Ok (list F) us /\
+           @stl_dir_params F H tol (@nth (basis F) 1 (@o_bases F o) {| b_order := 0; b_knots := []; b_per1 := 0 |})
+             (@option_map (nat * nat) nat (@snd nat nat) n) = @Ok (list F) vs /\
+           (@o_dim F o <= 3)%nat /\
+           @length (@stl_tri F) tris = (2 * (@length F us - 1) * (@length F vs - 1))%nat /\
+           @stl_binary_count F H tris = @length (@stl_tri F) tris /\
+           (forall (t : @stl_tri F) (p : @stl_point F),
+            @In (@stl_tri F) t tris ->
+            @In (@stl_point F) p (@tri_verts F t) ->
+            exists (u v : F) (q : list F),
+              @In F u us /\
+              @In F v vs /\ @obj_eval F H tol o [u; v] = @Ok (list F) q /\ p = @stl_pad_pt F H (@o_dim F o) q).
+Proof. exact @stl_write_surface_spec. Qed.
+Print Assumptions C19_stl_write_surface_spec.
+
+Theorem C19_stl_split_spec :
+  forall (F : Type) (p1 p2 p3 p4 : @stl_point F),
+         exists t1 t2 : @stl_tri F,
+           @stl_split F [p1; p2; p3; p4] = [t1; t2] /\
+           @In (@stl_point F * @stl_point F) (p3, p1) (@tri_edges F t1) /\
+           @In (@stl_point F * @stl_point F) (p1, p3) (@tri_edges F t2) /\
+           (forall p : @stl_point F,
+            @In (@stl_point F) p (@tri_verts F t1 ++ @tri_verts F t2) <-> @In (@stl_point F) p [p1; p2; p3; p4]) /\
+           @In (@stl_point F * @stl_point F) (p1, p2) (@tri_edges F t1) /\
+           @In (@stl_point F * @stl_point F) (p2, p3) (@tri_edges F t1) /\
+           @In (@stl_point F * @stl_point F) (p3, p4) (@tri_edges F t2) /\
+           @In (@stl_point F * @stl_point F) (p4, p1) (@tri_edges F t2).
+Proof. exact @stl_split_spec. Qed.
+Print Assumptions C19_stl_split_spec.
+
+Theorem C19_stl_params_general :
+  forall (p : nat) (kn : list R) (a b : R),
+         (3 <= p)%nat ->
+         kn <> [] ->
+         OrderProofs.lsorted kn ->
+         exists l : list R,
+           @stl_params R NumR p kn a b (@None nat) = @Ok (list R) l /\
+           OrderProofs.lsorted l /\
+           @Permutation.Permutation R l (stl_span_points p kn ++ kn) /\
+           @hd R 0 l = @hd R 0 kn /\
+           @last R l 0 = @last R kn 0 /\
+           (forall k : R, @In R k kn -> @In R k l) /\
+           @length R l = ((@length R kn - 1) * (2 * p - 3) + @length R kn)%nat /\
+           (forall t : R, @In R t l -> @hd R 0 kn <= t <= @last R kn 0) /\
+           (forall l' : list R,
+            OrderProofs.lsorted l' -> @Permutation.Permutation R l' (stl_span_points p kn ++ kn) -> l' = l).
+Proof. exact @stl_params_general. Qed.
+Print Assumptions C19_stl_params_general.
+
+Theorem C19_stl_pad3 :
+  forall (F : Type) (H : Num F) (p : @stl_point F),
+         @firstn F (@length F p) (@pad3 F H p) = p /\
+         (forall (c : nat) (d : F), (c < @length F p)%nat -> @nth F c (@pad3 F H p) d = @nth F c p d) /\
+         (forall c : nat, (@length F p <= c)%nat -> (c < 3)%nat -> @nth F c (@pad3 F H p) (@n0 F H) = @n0 F H) /\
+         ((@length F p <= 3)%nat -> @length F (@pad3 F H p) = 3%nat) /\ ((3 <= @length F p)%nat -> @pad3 F H p = p).
+Proof. exact @pad3_spec. Qed.
+Print Assumptions C19_stl_pad3.
+
